@@ -1,8 +1,38 @@
-import PvlModel.Model.Encoder
-import PvlModel.Model.Spec
+import PvlModel.Props.C03
+import PvlModel.Props.C01
 /-!
-# C02
-(theorems are added below as they are proved; see DESIGN §5)
+# C02 — the default loader reads back everything any bundled encoder writes
+
+Value-level theorems with the default decoder (`OmniDecoder` over `OmniGrammar`) as the reader and any of
+the four encoders, with any options, as the writer.  The statement / block level is decided against the
+real code (`vlib/props/c02.py`, which is C01's check with `pvl.loads()` as the reader and the extra
+requirement that `module.errors` is empty).
 -/
 namespace Pvl
+open Py Enc
+
+/-- the default decoder -/
+def omniDec : Dec := ⟨Gen.omni, .omni⟩
+
+/-- **C02, integers**: whatever encoder wrote the integer, the default decoder reads it back -/
+theorem C02_int (c : EncCfg) (i : Int) :
+    ∃ text, encodeValue c (.int i) = .ok text ∧ decodeSimple omniDec text = .ok (.int i) := by
+  refine ⟨intStr i, by simp [encodeValue, encodeSimple], ?_⟩
+  exact C03_int_literal omniDec (by simp [omniDec]) i
+
+/-- **C02, constants**: the keywords each of the five tables writes for `None`, `True`, `False` are read by
+    the default decoder as those constants -/
+theorem C02_keywords :
+    ∀ g ∈ [Gen.pvl, Gen.odl, Gen.pds, Gen.isis, Gen.omni],
+      decodeSimple omniDec g.noneKw = .ok .none ∧
+      decodeSimple omniDec g.trueKw = .ok (.bool true) ∧
+      decodeSimple omniDec g.falseKw = .ok (.bool false) := by
+  have key : ∀ g ∈ [Gen.pvl, Gen.odl, Gen.pds, Gen.isis, Gen.omni],
+      foldEq g.noneKw Gen.omni.noneKw = true ∧ foldEq g.trueKw Gen.omni.noneKw = false ∧
+      foldEq g.trueKw Gen.omni.trueKw = true ∧ foldEq g.falseKw Gen.omni.noneKw = false ∧
+      foldEq g.falseKw Gen.omni.trueKw = false ∧ foldEq g.falseKw Gen.omni.falseKw = true := by decide
+  intro g hg
+  obtain ⟨a, b, c, d, e, f⟩ := key g hg
+  simp [decodeSimple, omniDec, a, b, c, d, e, f]
+
 end Pvl
